@@ -62,6 +62,32 @@ var flipBits = []uint{0, 1, 2, 3, 7}
 // values at every offset, 2-byte values at every offset, 1-byte values at every offset, "n-1/n+1"
 // of every 4-byte and 2-byte big-endian field, truncation at every offset, every single-bit flip
 // (inputs up to 256 bytes), and 3 extensions.
+// homonyms builds destinations of two struct types that share their name (reflect.Type.String() is
+// "mutfam.Rec" for both) but not their layout.
+var homonyms = []func() interface{}{
+	func() interface{} {
+		type Rec struct {
+			X, Y bool
+			A    int32
+			B    string
+		}
+		return &Rec{}
+	},
+	func() interface{} {
+		type Rec struct {
+			A int32
+		}
+		return &Rec{}
+	},
+	func() interface{} {
+		type Rec struct {
+			B string
+			A int32
+		}
+		return &Rec{}
+	},
+}
+
 // ---- field-aware mutation (frames without body compression) ----------------------------------
 // The field map is obtained by decoding the VALID encoding through a reader that records every
 // Read call: the primitive readers fetch each [int], [short], [byte], [long], length prefix and
@@ -713,6 +739,16 @@ func run(item, mut int, reencode bool) []iso.Finding {
 					}
 					_, _ = codec.Decode(b, d.Interface(), v)
 				}})
+			}
+		}
+		switch dt.Code() {
+		case primitive.DataTypeCodeUdt, primitive.DataTypeCodeTuple, primitive.DataTypeCodeMap:
+			// named struct destinations; two DIFFERENT types with the same name (declared in different scopes, as
+			// in api/v1.Address and model/v1.Address), one after the other: whatever a decoder remembers about one
+			// must not be applied to the other
+			for hi, mk := range homonyms {
+				mk := mk
+				es = append(es, entry{fmt.Sprintf("Codec.Decode(named struct Rec #%d)", hi+1), func() { _, _ = codec.Decode(b, mk(), v) }})
 			}
 		}
 		if !cql.IsComposite(dt) {
